@@ -356,7 +356,58 @@ def cross_kind_stream(ctx, n):
             ctx.disagree("C09:dist:cross-kind", desc, exp, r[1:3], replay=[desc])
 
 
+def degenerate_angle_stream(ctx, n):
+    """(a) the two-argument form of angle with coincident lines through the origin (a line and its own direction or a point on it,
+    two proportional points / directions): the angle is 0 (mod pi), not an error; (b) Polygon.angles[i] is the interior angle AT
+    vertices[i] (polygons whose angles all differ)"""
+    import geometer as g
+    rng = ctx.rng
+    for k in range(n):
+        if k % 2 == 0:
+            d = [float(rng.randint(-4, 4)), float(rng.randint(-4, 4))]
+            if not any(d):
+                continue
+            lam = rng.choice([2.0, -2.0, 0.5, -1.0])
+            p, q = g.Point(d[0], d[1]), g.Point(d[0] * lam, d[1] * lam)
+            l = g.Line(g.Point(0.0, 0.0), p)
+            forms = {"line-direction": lambda: g.angle(l, l.direction), "line-point": lambda: g.angle(l, q),
+                     "point-point": lambda: g.angle(p, q), "direction-direction": lambda: g.angle(g.Point(np.array(d + [0.0])), g.Point(np.array([d[0] * lam, d[1] * lam, 0.0])))}
+            name = rng.choice(sorted(forms))
+            desc = f"angle ({name}) of coincident lines through the origin, direction {d}, factor {lam}"
+            ctx.case(desc)
+            ctx.count("angle:coincident:" + name)
+            r = call_impl(forms[name])
+            ok = r[0] == "ok" and np.all(np.isfinite(r[1])) and abs(np.sin(float(np.real(r[1])))) <= 1e-9
+            if not ok:
+                ctx.disagree("C09:angle:coincident:" + name, desc, "0 (mod pi)", r[1:3], replay=[desc])
+        else:
+            # a triangle / quadrilateral with pairwise different interior angles
+            vs = rng.choice([[(0, 0), (4, 0), (0, 3)], [(0, 0), (5, 0), (4, 3), (0, 1)], [(1, 1), (6, 1), (2, 4)], [(0, 0), (6, 0), (5, 2), (1, 5)]])
+            r0 = rng.randrange(len(vs))
+            vs = vs[r0:] + vs[:r0]
+            if rng.random() < 0.5:
+                vs = vs[::-1]
+            dx, dy = rng.randint(-3, 3), rng.randint(-3, 3)
+            V = [np.array([x + dx, y + dy], dtype=float) for x, y in vs]
+            nv = len(V)
+            def interior(i):
+                u, w = V[i - 1] - V[i], V[(i + 1) % nv] - V[i]
+                return float(np.arccos(np.clip(u @ w / (np.linalg.norm(u) * np.linalg.norm(w)), -1, 1)))
+            exp = [interior(i) for i in range(nv)]
+            dim3 = rng.random() < 0.3
+            P = g.Polygon(*[g.Point(v[0], v[1], 2.0) if dim3 else g.Point(v[0], v[1]) for v in V])
+            desc = f"Polygon.angles of {[v.tolist() for v in V]}{' in the plane z = 2' if dim3 else ''}"
+            ctx.case(desc)
+            ctx.count("angles:at-vertex")
+            r = call_impl(lambda: [float(np.real(a)) for a in P.angles])
+            # the library's angles are oriented and defined modulo pi: compare modulo pi and up to the sign
+            ok = r[0] == "ok" and len(r[1]) == nv and all(min(abs(np.sin(a - e)), abs(np.sin(a + e))) <= 1e-8 for a, e in zip(r[1], exp))
+            if not ok:
+                ctx.disagree("C09:angles:at-vertex", desc, exp, r[1:3], replay=[desc])
+
+
 def correspondence(ctx):
+    degenerate_angle_stream(ctx, ctx.budget(60, 600))
     cross_kind_stream(ctx, ctx.budget(30, 300))
     polygon2d_stream(ctx, ctx.budget(60, 600))
     origin_lines(ctx, ctx.budget(30, 300))
